@@ -1636,6 +1636,12 @@ func (c *Configuration) buildMinionConfigs(masterHost string) ([]*MinionConfigur
 				continue
 			}
 
+			if holder == minionConfig {
+				// the minion lists the same path more than once (for example, with different path types);
+				// it must not lose the path to itself
+				continue
+			}
+
 			warning := fmt.Sprintf("path %s is taken by another resource", p.Path)
 
 			if !chooseObjectMetaWinner(&holder.Ingress.ObjectMeta, &ingress.ObjectMeta) {
